@@ -76,6 +76,8 @@ Arguments Ok {A} a.
 Arguments Crash {A} c.
 Arguments OutOfFuel {A}.
 
+Definition b2z (b : bool) : Z := if b then 1 else 0.
+
 Definition go_quot (a b : Z) : Z := wrap64 (Z.quot a b).
 Definition go_rem (a b : Z) : Z := Z.rem a b.
 
@@ -106,10 +108,10 @@ Definition eval_binop (op : binop) (l r : pvalue) : res pvalue :=
       | OOr => Ok (PVBool (lb || get_boolean r))
       | ODEqual => Ok (PVBool (Bool.eqb lb (get_boolean r)))
       | ONEqual => Ok (PVBool (negb (Bool.eqb lb (get_boolean r))))
-      | OLess => Ok (PVBool (Z.ltb (get_number l) (get_number r)))
-      | OGreater => Ok (PVBool (Z.ltb (get_number r) (get_number l)))
-      | OLessEq => Ok (PVBool (Z.leb (get_number l) (get_number r)))
-      | OGreaterEq => Ok (PVBool (Z.leb (get_number r) (get_number l)))
+      | OLess => Ok (PVBool (Z.ltb (get_number l) (b2z (get_boolean r))))
+      | OGreater => Ok (PVBool (Z.ltb (b2z (get_boolean r)) (get_number l)))
+      | OLessEq => Ok (PVBool (Z.leb (get_number l) (b2z (get_boolean r))))
+      | OGreaterEq => Ok (PVBool (Z.leb (b2z (get_boolean r)) (get_number l)))
       | _ => Crash CrUndefinedOp
       end
   | PVNum ln =>
